@@ -622,7 +622,7 @@ def r7(repo, run):
     bad1 = []
     rows1 = 0
     for ci in F3:
-        for v in (True, False):
+        for v in (True, False, None):
             value = node_obj('value', 'ComposedNode', _children={}, _implicit_safe=ci)
             f = FDE(repo)
             r = fde_guard(lambda: f.call(mc, ('class', 'ConfigNode'), value, implicit_safe=v))
